@@ -147,6 +147,53 @@ func VerifC13_serverData() {
 	}
 }
 
+// VerifC13_serverDataBasicList: the closedness check over a LIST of basic rules. Host table {p1}, clusters
+// {c1, (c2)}, route table of p1: 2..NB basic rules (distinct paths) whose clusters are drawn, in every order,
+// from {c1, c2, c3, ADVANCED_MODE}, plus one advanced rule -> c1. Oracle as in VerifC13_serverData:
+// accepted => every basic rule names an existing cluster or ADVANCED_MODE (wherever it stands in the list);
+// documented and closed => accepted.
+func VerifC13_serverDataBasicList() {
+	ver := "v"
+	hosts := host_rule_conf.HostTagToHost{"t1": &host_rule_conf.HostnameList{"a.c"}}
+	tags := host_rule_conf.ProductToHostTag{"p1": &host_rule_conf.HostTagList{"t1"}}
+	hookHostC13 = &host_rule_conf.HostTableConf{Version: &ver, Hosts: &hosts, HostTags: &tags}
+	hookVipC13 = &vip_rule_conf.VipTableConf{Version: ver, Vips: vip_rule_conf.Product2Vip{"p1": {"1.2.3.4"}}}
+	clusters := cluster_conf.ClusterToConf{"c1": cluster_conf.ClusterConf{}}
+	haveC2 := vrt.Choose("cluster-has-c2", 2) == 1
+	if haveC2 {
+		clusters["c2"] = cluster_conf.ClusterConf{}
+	}
+	hookClusterC13 = &cluster_conf.BfeClusterConf{Version: &ver, Config: &clusters}
+
+	closed := true
+	paths := []string{"/x*", "/y", "/z/*"}
+	nb := vrt.Range("basic-rules", 2, vrt.Param("NB", 3))
+	var basic route_rule_conf.BasicRouteRuleFiles
+	for i := 0; i < nb; i++ {
+		c := clusterNamesC13[vrt.Choose("basic-cluster", len(clusterNamesC13))]
+		if c != route_rule_conf.AdvancedMode && !(c == "c1" || c == "c2" && haveC2) {
+			closed = false
+		}
+		basic = append(basic, route_rule_conf.BasicRouteRuleFile{Hostname: []string{"a.c"}, Path: []string{paths[i]}, ClusterName: sC13(c)})
+	}
+	hookRouteC13 = &route_rule_conf.RouteTableFile{Version: &ver,
+		BasicRule: &route_rule_conf.ProductBasicRouteRuleFile{"p1": basic},
+		ProductRule: &route_rule_conf.ProductAdvancedRouteRuleFile{"p1": {
+			{Cond: sC13("default_t()"), ClusterName: sC13("c1")},
+		}},
+	}
+
+	s, err := LoadServerDataConf(fileC13("VerifC13_decHost", hookHostC13), fileC13("VerifC13_decVip", hookVipC13),
+		fileC13("VerifC13_decRoute", hookRouteC13), fileC13("VerifC13_decCluster", hookClusterC13))
+	if err == nil {
+		vrt.Assert(s != nil, "C13/basic-list-accepted-has-conf")
+		vrt.Assert(closed, "C13/basic-list-accepted-is-closed")
+	}
+	if closed {
+		vrt.Assert(err == nil, "C13/basic-list-documented-closed-accepted")
+	}
+}
+
 func iC13(v int) *int { return &v }
 
 // VerifC13_clusterConf: cluster_conf.data as a decoded struct -> ClusterTable.Init (ClusterConfLoad,
